@@ -5,12 +5,13 @@
 # the patched build (must fail) and against /repo/_build (must pass), (4) runs the named checks against the patched
 # tree (VERIF_REPO / VERIF_BUILD) and records whether they report a VIOLATION. Everything is removed afterwards.
 SEED=$(realpath "$1"); IDS=${2//,/ }
-NAME=$(basename "$SEED"); WT=/tmp/vs_$NAME; VB=/tmp/vsb_$NAME; LOG=$SEED/verify.log
+NAME=$(basename "$SEED"); WT=/tmp/vs_$NAME; VB=/tmp/vsb_$NAME; LOG=$SEED/verify.log; [ -n "${RECHECK_ONLY:-}" ] && LOG=$SEED/recheck.log
 exec > >(tee "$LOG") 2>&1
 set -u
 git -C /repo worktree remove --force $WT 2>/dev/null; rm -rf $WT $VB
 git -C /repo worktree add --detach $WT HEAD > /dev/null || exit 2
 git -C $WT apply "$SEED/patch.diff" 2>/dev/null || git -C $WT apply -C1 "$SEED/patch.diff" 2>/dev/null || git -C $WT apply --3way "$SEED/patch.diff" || { echo "RESULT patch-does-not-apply"; git -C /repo worktree remove --force $WT; exit 2; }
+if [ -z "${RECHECK_ONLY:-}" ]; then   # RECHECK_ONLY=1: only re-run the checks against the patched tree (after a check was strengthened)
 echo "== build with tests"
 cmake -S $WT -B $WT/_build -G Ninja -DCMAKE_BUILD_TYPE=RelWithDebInfo -DBUILD_TESTING=ON -DCMAKE_POLICY_VERSION_MINIMUM=3.5 -DCMAKE_CXX_FLAGS=-Wno-error -DCMAKE_C_FLAGS=-Wno-error > $WT/conf.log 2>&1 \
   && cmake --build $WT/_build -j"$(nproc)" > $WT/build.log 2>&1 || { echo "RESULT compile=FAIL"; tail -5 $WT/build.log; git -C /repo worktree remove --force $WT; exit 1; }
@@ -36,6 +37,7 @@ if [ -x "$SEED/run.sh" ] || [ -f "$SEED/run.sh" ]; then
   ( cd "$SEED" && bash ./run.sh $WT $WT/_build ) > $WT/demo_with.log 2>&1; A=$?
   ( cd "$SEED" && bash ./run.sh /repo /repo/_build ) > $WT/demo_without.log 2>&1; B=$?
   echo "RESULT demo_with_change_exit=$A demo_without_change_exit=$B"; tail -3 $WT/demo_with.log
+fi
 fi
 echo "== checks against the patched tree"
 for id in $IDS; do
